@@ -50,6 +50,8 @@ class Profile(Lower):
         (r'^std::vector<std::unique_ptr<(bloch::compiler::)?Statement(, std::default_delete<.*>)?>(, .*)?>$', 'bl_stmts'),
         (r'^std::unique_ptr<(bloch::compiler::)?Statement(, std::default_delete<.*>)?>$', 'bl_stmt'),
         (r'^(bloch::compiler::)?Statement \*$', 'bl_stmt'),
+        (r'^std::unique_ptr<(bloch::compiler::)?Expression(, std::default_delete<.*>)?>$', 'bl_stmt'),
+        (r'^(bloch::compiler::)?Expression \*$', 'bl_stmt'),
         (r'^(bloch::runtime::)?(RuntimeEvaluator::)?VarEntry$', 'VarEntry'),
         (r'^(bloch::runtime::)?RuntimeMethod \*$', 'bl_mth'),
         (r'^(bloch::compiler::)?ConstructorDeclaration \*$', 'bl_decl'),
@@ -122,7 +124,7 @@ class Profile(Lower):
             return self.expr(sb)
         if nm == 'vtable' and bt == 'bl_clsid':
             return 'BL_VTABLE(%s)' % self.expr(sb)
-        if sb.get('kind') == 'DeclRefExpr' and sb['referencedDecl']['name'] == getattr(self, 'ctx', None) and nm in ('member', 'line', 'column'):
+        if sb.get('kind') == 'DeclRefExpr' and sb['referencedDecl']['name'] == getattr(self, 'ctx', None) and nm in ('member', 'line', 'column', 'initializer', 'condition', 'body', 'increment'):
             return '%s_%s' % (self.ctx, nm)
         if bt == 'bl_clsid' and nm == 'constructors':
             return 'BL_CTORS(%s)' % self.expr(sb)
@@ -149,6 +151,8 @@ class Profile(Lower):
         op = callee_name(ks[0])
         args = ks[1:]
         t0 = self.ct(args[0])
+        if op == 'operator()' and strip_parens(args[0]).get('kind') == 'DeclRefExpr' and strip_parens(args[0])['referencedDecl']['name'] == 'isTruthy':
+            return self.expr(args[1])            # isTruthy(eval(e)): the truth value of the condition (objm_eval_truth already returns it)
         if op == 'operator*' and len(args) == 1 and t0 == 'opt_int':
             return '(%s).v' % self.expr(args[0])
         if op == 'operator[]' and t0 == 'bl_stmts':
@@ -176,6 +180,10 @@ class Profile(Lower):
             return 'objm_%s()' % name
         if so.get('kind') == 'CXXThisExpr' and name == 'exec':
             return 'objm_exec(%s)' % self.expr(args[0])
+        if so.get('kind') == 'CXXThisExpr' and name == 'eval' and len(args) == 1:
+            return 'objm_eval_truth(%s)' % self.expr(args[0])
+        if self.ct(obj) == 'bl_stmt' and name == 'operator bool':
+            return '(%s != 0)' % self.expr(obj)
         if name == 'back' and so.get('kind') == 'MemberExpr' and so.get('name') == 'm_env':
             return 'BL_TOP_SCOPE'
         if so.get('kind') == 'CXXThisExpr' and name == 'argumentsConversionCost' and len(args) == 2:
@@ -351,6 +359,25 @@ def lower_regions(docs, prof):
     except Unsupported as e:
         prof.region_unlowered = {'exec_block': str(e)}
         out.append(('void objm_exec_block(bl_body block)', None))
+    # the ForStatement branch of exec: its header scope is closed on every path
+    try:
+        from units.arith import find_region
+        ex = cxx2c.find_functions(docs, 'exec')
+        body = [k for k in kids(ex[0]) if k.get('kind') == 'CompoundStmt'][0]
+        n, cast = find_region(body, 'fors')
+        if not any('ForStatement' in c for c in cast):
+            raise Unsupported('region `fors` is no longer the dynamic_cast<ForStatement*> branch')
+        prof.ctx = 'fors'
+        prof.locals.add('fors')
+        d5 = dict(kind='FunctionDecl', name='exec_for', type=dict(qualType='void ()'), inner=[kids(n)[2]])
+        h5, l5 = prof.func(d5, cname='exec_for', is_method=False)
+        prof.ctx = None
+        out.append(('void objm_exec_for(bl_stmt fors_initializer, bl_stmt fors_condition, bl_stmt fors_body, bl_stmt fors_increment)', l5))
+    except Unsupported as e:
+        if not hasattr(prof, 'region_unlowered'):
+            prof.region_unlowered = {}
+        prof.region_unlowered['exec_for'] = str(e)
+        out.append(('void objm_exec_for(bl_stmt fors_initializer, bl_stmt fors_condition, bl_stmt fors_body, bl_stmt fors_increment)', None))
     # construction phases: base constructor chain, field initialisers, constructor body - in their source order
     hc = 'void objm_ctor_phases(bl_clsid cls, bl_objid obj, bl_decl ctor, _Bool hasExplicitSuper)'
     try:
@@ -452,6 +479,7 @@ static inline void objm_beginScope(void) {
   if (ev_m_inDestructor && ev_m_currentClassCtx == cb && g_b_entered < 1000) g_b_entered = g_b_entered + 1;
 }
 static inline void objm_endScope(void) { if (g_depth > 0) g_depth = g_depth - 1; g_this_valid = 0; if (g_ends < 1000) g_ends = g_ends + 1; }
+static inline _Bool objm_eval_truth(bl_stmt e) { return nondet_bool(); }     /* evaluating a condition / increment expression: an arbitrary truth value */
 static inline void objm_put_top(bl_cname name, VarEntry e) { if (name == BL_NAME_THIS) { g_this = e.value; g_this_valid = 1; } }
 static inline void objm_exec(bl_stmt s) {
   if (g_pclock < 1000000) g_pclock = g_pclock + 1;
@@ -635,7 +663,21 @@ CONTRACTS['member_dispatch'] = {
         E('eval.member_call.super_call_runs_the_base_version', '(viaSuper && STATIC_CLS != 0 && g_cls[STATIC_CLS].base != 0) ==> (method == METHOD_OF(g_cls[STATIC_CLS].base, member_member) && staticCls == g_cls[STATIC_CLS].base)', ['C08']),
     ],
 }
+CONTRACTS['exec_for'] = {
+    'contract': [
+        R('bl_exc == 0 && g_depth < 1000000 && g_begins == 0 && g_ends == 0 && g_pclock == 0 && g_exec_n == 0'),
+        A(GH_ALL + ', g_depth0'),
+        # C09: the scope of a for statement's header variable is opened once and closed on every path out of the loop (partial correctness:
+        # the interpreted loop itself need not terminate, so there is no decreases clause)
+        E('exec.for.scope_closed_on_every_path', 'g_depth == __CPROVER_old(g_depth) && g_begins == 1 && g_ends == 1', ['C09', 'C17']),
+    ],
+    'loops': {0: {'assigns': 'ev_m_hasReturn, g_pclock, g_exec_n, g_exec_first_t, g_exec_first_stmt, g_a_started, g_b_started, g_b_started_when_a, g_a_this_ok, g_b_this_ok, g_a_depth, g_b_depth',
+                  'invariants': [('exec_for.loop.scope_open', 'g_depth == g_depth0 + 1 && g_begins == 1 && g_ends == 0')]}},
+    'prologue': 'g_depth0 = g_depth;',
+}
 HARNESSES = [
+    dict(name='exec_for', fn='exec_for', replace=[], flags=[], props=['C09', 'C17', 'C12'], timeout=300, unwind=4, guards_no_decreases=True,
+         canaries=[('ev_m_hasReturn', 'left by a return'), ('!ev_m_hasReturn', 'left by the condition')]),
     dict(name='ctor_phases', fn='ctor_phases', replace=[], flags=[], props=['C08', 'C12'], timeout=600, unwind=6,
          canaries=[('bl_exc == 0 && g_n_base == 1 && g_exec_n > 0', 'base chain, fields and body all ran'), ('bl_exc != 0', 'construction failed')]),
     dict(name='member_dispatch', fn='member_dispatch', replace=[], flags=[], props=['C08', 'C12'], timeout=300,
